@@ -50,7 +50,7 @@ class Contract:
                  mod_slots=None, loops=None, cases=None, inline=False,
                  use_at_calls=True, applicable=None, inline_fallback=False,
                  recursive_ok=False, fresh_result=False, may_raise_other=False,
-                 opaque=None, merge=True, cuts=None, note=""):
+                 opaque=None, merge=True, cuts=None, ghosts=None, note=""):
         self.key = key
         self.requires = _lst(requires)
         self.ensures = _lst(ensures)
@@ -71,6 +71,7 @@ class Contract:
         self.fresh_result = fresh_result
         self.opaque = list(opaque or [])
         self.merge = merge
+        self.ghosts = dict(ghosts or {})    # free (universally quantified) constants
         self.cuts = list(cuts or [])   # [(source-prefix, [assertion texts])]
         self.note = note
 
@@ -207,6 +208,8 @@ class Engine(ExprMixin, CallMixin, StmtMixin):
         self.opaque = {n: z3.Function("U_" + n, z3.IntSort(), z3.IntSort())
                        for n in c.opaque}
         self.merge = c.merge
+        self.ghost_consts = {n: (z3.Int if k == "int" else z3.Real)("g:" + n)
+                             for n, k in c.ghosts.items()}
         st = State()
         params = case.build(self, st)
         a_ = info.node.args
